@@ -12,7 +12,9 @@ DetailedPlacement DetailedPlacement::fromIspdCircuit(const Circuit &circuit) {
   std::vector<Rectangle> obstacles;
   for (int c = 0; c < circuit.nbCells(); ++c) {
     if (circuit.cellIsFixed_[c]) {
+      // Fixed cells are handled by computeRows according to their obstruction flag
       widths[c] = -1;
+      continue;
     }
     if (circuit.cellHeight_[c] != rowHeight) {
       widths[c] = -1;
